@@ -101,24 +101,81 @@ def _rand_history(rng, cls, nv, L0, length):
             ops.append(["ae", ly, u, v])
         elif r < 0.40:
             es = [_rand_edge(rng, cls, ly, nv, L, bad_ok) for _ in range(rng.randint(0, 3))]
-            ops.append(["aes", ly, es])
+            ops.append(["aes", ly, _with_dups(rng, es)])
         elif r < 0.55:
             u, v = _rand_edge(rng, cls, ly, nv, L, True)
             ops.append(["re", ly, u, v])
         elif r < 0.60:
-            ops.append(["res", ly, [_rand_edge(rng, cls, ly, nv, L, True) for _ in range(rng.randint(0, 3))]])
+            ops.append(["res", ly, _with_dups(rng, [_rand_edge(rng, cls, ly, nv, L, True) for _ in range(rng.randint(0, 3))])])
         elif r < 0.67:
             ops.append(["av", rng.randrange(nv)])
         elif r < 0.74:
             ops.append(["rv", rng.randrange(nv)])
         elif r < 0.92:
-            n = rng.choice([0, 1, 1, 2, 2, 3, 3, 4, 4, 5, L + 1, max(1, L - 1)])
+            n = rng.choice([0, 1, 1, 2, 2, 3, 3, 4, 4, 5, L + 1, max(1, L - 1), L, L])
             ops.append(["sml", n])
             if n > 0:
                 L = n
         else:
             ops.append(["cp"])
     return ops
+
+
+def _with_dups(rng, es):
+    """duplicates inside bulk arguments: repeat one element (adjacent or at the end)"""
+    if es and rng.random() < 0.3:
+        j = rng.randrange(len(es))
+        es = es[: j + 1] + [[list(es[j][0]), list(es[j][1])]] + es[j + 1:] if rng.random() < 0.5 else es + [[list(es[j][0]), list(es[j][1])]]
+    return es
+
+
+def _boundary_histories(cls, L0):
+    """targeted boundary histories: a variable with edges at several lags in one layer, then two ops out of: remove that
+    variable / the other one, set_max_lag to the same value / by several steps up and down / to 0, copy, batches that are
+    empty or list the same edge twice"""
+    for ly in range(len(LAYER_NAMES[cls])):
+        prefix = [["ae", ly, [0, 0], [1, 0]], ["ae", ly, [0, 1], [1, 0]], ["ae", ly, [0, L0], [1, 0]],
+                  ["ae", ly, [1, 1], [0, 0]], ["ae", ly, [0, 1], [0, 0]]]
+        tails = [["rv", 0], ["rv", 1], ["av", 0], ["sml", L0], ["sml", L0 + 2], ["sml", L0 + 3], ["sml", 1], ["sml", 0], ["cp"],
+                 ["aes", ly, []], ["res", ly, []],
+                 ["aes", ly, [[[1, 1], [1, 0]], [[1, 1], [1, 0]]]], ["res", ly, [[[0, 1], [1, 0]], [[0, 1], [1, 0]]]],
+                 ["aes", ly, [[[1, 1], [1, 0]], [[1, L0 + 1], [1, 0]], [[1, 1], [1, 0]]]]]
+        for t1 in tails:
+            for t2 in tails:
+                yield prefix + [list(t1), list(t2)]
+
+
+def _stale_histories(cls, L0):
+    """state that could go stale across calls: warm-up queries right before (case["warm_at"] = op indices), then edits that keep the
+    node count (swap one variable for another, move an edge to another variable / lag / layer) followed by an op that
+    reads the derived state (set_max_lag up / down, copy, remove_variable)"""
+    nl = len(LAYER_NAMES[cls])
+    for ly in range(nl):
+        ly2 = (ly + 1) % nl
+        edits = [[["rv", 0], ["av", 2]], [["rv", 1], ["av", 2], ["ae", ly, [2, 1], [0, 0]]],
+                 [["re", ly, [0, 1], [1, 0]], ["ae", ly, [1, 1], [0, 0]]], [["re", ly, [0, 1], [1, 0]], ["ae", ly2, [0, 1], [1, 0]]],
+                 [["re", ly, [0, 1], [1, 0]], ["ae", ly, [0, 0], [1, 0]]], [["sml", L0 + 1], ["sml", L0]]]
+        readers = [[["sml", L0 + 1]], [["sml", L0 + 2], ["sml", 1]], [["cp"], ["sml", L0 + 1]], [["rv", 1], ["sml", L0 + 1]],
+                   [["sml", 1], ["sml", L0 + 1]]]
+        for e in edits:
+            for r in readers:
+                yield [["av", 0], ["ae", ly, [0, 1], [1, 0]], ["ae", ly, [1, 0], [1, 0]]] + [list(o) for o in e] + [list(o) for o in r]
+
+
+def _rand_init(rng, cls, nv, L):
+    """valid constructor edge lists per layer (only layers without a cross-layer validity check get edges)"""
+    nl = len(LAYER_NAMES[cls])
+    init = [[] for _ in range(nl)]
+    for ly in ([0] if cls != 2 else [0, 1]):
+        for _ in range(rng.randint(0, 3)):
+            a, b = sorted((rng.randint(0, L), rng.randint(0, L)), reverse=True)
+            x, y = rng.randrange(nv), rng.randrange(nv)
+            if a == b and (x >= y):
+                continue   # keep contemporaneous init edges acyclic / loop free (the CPDAG / PAG constructors validate)
+            if ly == 1 and not ({x, y} <= set(n[0] for e in init[0] for n in e)):
+                continue   # MixedEdgeGraph.__init__ registers the nodes of the FIRST layer graph only (C02's subject)
+            init[ly].append([[x, a], [y, b]])
+    return init
 
 
 def gen_cases(tier, rng):
@@ -130,19 +187,46 @@ def gen_cases(tier, rng):
                 yield {"kind": "exh%d" % full, "cls": cls, "L": L0, "ops": [list(o) for o in seq]}
             if tier == "quick":
                 for _ in range(250):
-                    yield {"kind": "exh3-sample", "cls": cls, "L": L0, "ops": [list(rng.choice(alpha)) for _ in range(3)]}
+                    yield {"kind": "exh3-sample", "cls": cls, "L": L0, "ops": [list(rng.choice(alpha)) for _ in range(3)],
+                           "var": rng.randrange(1 << 30)}
+        for L0 in (2, 3):
+            for k, ops in enumerate(_boundary_histories(cls, L0)):
+                c = {"kind": "boundary", "cls": cls, "L": L0, "ops": ops}
+                if k % 2:
+                    c["var"] = rng.randrange(1 << 30)
+                yield c
+            for ops in _stale_histories(cls, L0):
+                # warm up once, right before the count-preserving edit (a query in between would refresh a memo)
+                yield {"kind": "stale", "cls": cls, "L": L0, "ops": ops, "warm_at": [3]}
     nr, length = (60, 20) if tier == "quick" else (400, 150)
     for cls in range(5):
-        for _ in range(nr):
+        for i in range(nr):
             nv = rng.choice([2, 3])
             L0 = rng.randint(1, 4)
-            yield {"kind": "rand", "cls": cls, "L": L0, "ops": _rand_history(rng, cls, nv, L0, length)}
+            c = {"kind": "rand", "cls": cls, "L": L0, "ops": _rand_history(rng, cls, nv, L0, length)}
+            if i % 2:
+                c["var"] = rng.randrange(1 << 30)
+            yield c
+        for i in range(nr // 2):
+            nv = rng.choice([2, 3])
+            L0 = rng.randint(1, 4)
+            yield {"kind": "rand-lagtuple", "cls": cls, "L": L0, "ops": _rand_history(rng, cls, nv, L0, length), "_lab": "lagtuple",
+                   "var": rng.randrange(1 << 30)}
+            L0 = rng.randint(1, 4)
+            yield {"kind": "rand-init", "cls": cls, "L": L0, "ops": _rand_history(rng, cls, nv, L0, length),
+                   "init": _rand_init(rng, cls, nv, L0), "var": rng.randrange(1 << 30)}
 
 
 # ---------------------------------------------------------------------------------------------- model side
+def _all_ops(case):
+    """constructor edge lists are modelled as one add_edges_from per layer on the empty graph"""
+    pre = [["aes", ly, es] for ly, es in enumerate(case["init"])] if case.get("init") is not None else []
+    return pre + case["ops"]
+
+
 def encode(case):
     ops = []
-    for o in case["ops"]:
+    for o in _all_ops(case):
         ops.append([OPC[o[0]]] + list(o[1:]))
     return [case["cls"], case["L"], ops]
 
@@ -159,25 +243,62 @@ def decode(case, v):
         d = _canon_state(L, nodes, layers)
         d["raised"] = raised
         steps.append(d)
+    if case.get("init") is not None:
+        k = len(case["init"])
+        first = dict(steps[k - 1], raised=int(any(st["raised"] for st in steps[:k])))
+        steps = [first] + steps[k:]
     return {"steps": steps}
 
 
 # ---------------------------------------------------------------------------------------------- implementation side
-def _build(cls, L):
+def _build(cls, L, init=None):
+    """init: per layer a list of edges passed to the constructor (the SAME list objects may be passed to two objects)"""
     from pywhy_graphs.classes.timeseries import (StationaryTimeSeriesCPDAG, StationaryTimeSeriesDiGraph,
                                                  StationaryTimeSeriesGraph, StationaryTimeSeriesMixedEdgeGraph,
                                                  StationaryTimeSeriesPAG)
+    i0 = init[0] if init is not None else None
     if cls == 0:
-        return StationaryTimeSeriesGraph(max_lag=L)
+        return StationaryTimeSeriesGraph(i0, max_lag=L)
     if cls == 1:
-        return StationaryTimeSeriesDiGraph(max_lag=L)
+        return StationaryTimeSeriesDiGraph(i0, max_lag=L)
     if cls == 2:
         return StationaryTimeSeriesMixedEdgeGraph(
-            graphs=[StationaryTimeSeriesDiGraph(max_lag=L), StationaryTimeSeriesGraph(max_lag=L)],
+            graphs=[StationaryTimeSeriesDiGraph(i0, max_lag=L),
+                    StationaryTimeSeriesGraph(init[1] if init is not None else None, max_lag=L)],
             edge_types=["directed", "bidirected"], max_lag=L)
     if cls == 3:
-        return StationaryTimeSeriesCPDAG(max_lag=L)
-    return StationaryTimeSeriesPAG(max_lag=L)
+        return StationaryTimeSeriesCPDAG(incoming_directed_edges=i0, max_lag=L)
+    return StationaryTimeSeriesPAG(incoming_directed_edges=i0, max_lag=L)
+
+
+def _labeler(case):
+    """variable labels; the extra family 'lagtuple' names variables like lag tuples / ts-nodes: (v, 0), (v, -1)"""
+    if (case or {}).get("_lab") == "lagtuple":
+        table = {}
+
+        def lab(v):
+            x = (v, -(v % 2))
+            table[x] = v
+            return x
+        return lab, (lambda x: table[x])
+    return gr.labeler(case)
+
+
+def _warm(G, cls):
+    """warm-up queries (must not change anything, may fill caches): every one individually guarded"""
+    qs = [lambda: list(G.nodes), lambda: G.variables, lambda: G.max_lag, lambda: G.number_of_nodes(), lambda: str(G),
+          lambda: G.nodes_at(0), lambda: G.adj, lambda: [G.lagged_neighbors(n) for n in G.nodes_at(0)],
+          lambda: [G.contemporaneous_neighbors(n) for n in G.nodes_at(0)]]
+    if cls <= 1:
+        qs += [lambda: list(G.edges), lambda: G.contemporaneous_edges, lambda: G.lag_edges, lambda: G.number_of_edges()]
+    else:
+        qs += [lambda: {k: list(v) for k, v in G.edges().items()}, lambda: {k: list(g.edges) for k, g in G.get_graphs().items()},
+               lambda: G.edge_types, lambda: G.number_of_edges()]
+    for q in qs:
+        try:
+            q()
+        except Exception:  # noqa
+            pass
 
 
 def _cedge(ordered, u, v):
@@ -211,12 +332,14 @@ def _snap(G, cls, inv):
 
 
 def run_impl(case):
+    import copy as _copy
+    import random as _random
     import warnings
     warnings.filterwarnings("ignore")
     cls = case["cls"]
-    lab, inv = gr.labeler(case)
-    G = _build(cls, case["L"])
+    lab, inv = _labeler(case)
     names = LAYER_NAMES[cls]
+    var = case.get("var")
 
     def node(n):
         return (lab(n[0]), -n[1])
@@ -227,9 +350,31 @@ def run_impl(case):
     def lname(i):
         return names[i] if i < len(names) else "no_such_edge_type"
 
-    originals = []
     steps = []
-    for o in case["ops"]:
+    init = None
+    if case.get("init") is not None:
+        init = [edges(es) for es in case["init"]]
+        init_before = _copy.deepcopy(init)
+    G = _build(cls, case["L"], init)
+    # a second live object from the SAME constructor arguments: must stay as built whatever happens to G
+    twin = _build(cls, case["L"], init)
+    twin0 = _snap(twin, cls, inv)
+    if init is not None:
+        st = _snap(G, cls, inv)
+        if twin0 != st:
+            st["twin_differs"] = True
+        st["raised"] = 0
+        if init != init_before:
+            st["argument_mutated"] = True
+        steps.append(st)
+
+    originals = []
+    for idx, o in enumerate(case["ops"]):
+        rv = _random.Random("%s:%d" % (var, idx)) if var is not None else None
+        if idx in case.get("warm_at", ()) or (rv is not None and rv.random() < 0.35):
+            _warm(G, cls)
+            for H, _b in originals:
+                _warm(H, cls)
         pre_vars = set(n[0] for n in G.nodes)
         raised, exc, extra = 0, None, {}
         try:
@@ -237,12 +382,21 @@ def run_impl(case):
             kw = [] if (cls <= 1 or k not in ("ae", "aes", "re", "res")) else [lname(o[1])]
             if k == "ae":
                 G.add_edge(node(o[2]), node(o[3]), *kw)
-            elif k == "aes":
-                G.add_edges_from(edges(o[2]), *kw)
+            elif k in ("aes", "res"):
+                arg = edges(o[2])
+                kind = rv.choice(["list", "list", "tuple", "gen", "iter"]) if rv is not None else "list"
+                before = _copy.deepcopy(arg)
+                passed = {"list": arg, "tuple": tuple(arg), "gen": (e for e in arg), "iter": iter(arg)}[kind]
+                try:
+                    if k == "aes":
+                        G.add_edges_from(passed, *kw)
+                    else:
+                        G.remove_edges_from(passed, *kw)
+                finally:
+                    if arg != before:
+                        extra["argument_mutated"] = True
             elif k == "re":
                 G.remove_edge(node(o[2]), node(o[3]), *kw)
-            elif k == "res":
-                G.remove_edges_from(edges(o[2]), *kw)
             elif k == "av":
                 G.add_variable(lab(o[1]))
             elif k == "rv":
@@ -274,6 +428,8 @@ def run_impl(case):
         for H, before in originals:
             if _snap(H, cls, inv) != before:
                 st["original_mutated"] = True
+        if _snap(twin, cls, inv) != twin0:
+            st["twin_mutated"] = True
         steps.append(st)
     return {"steps": steps}
 
@@ -300,6 +456,10 @@ def _first_diff(case, impl, model):
             return (i, "copy-class")
         if a.get("original_mutated"):
             return (i, "original-mutated")
+        if a.get("twin_mutated") or a.get("twin_differs"):
+            return (i, "twin-object")
+        if a.get("argument_mutated"):
+            return (i, "argument-mutated")
     if len(impl["steps"]) != len(model["steps"]):
         return (min(len(impl["steps"]), len(model["steps"])), "length")
     return None
@@ -310,7 +470,8 @@ def compare(case, impl, model):
     if d is None:
         return None
     i, what = d
-    op = case["ops"][i][0] if i < len(case["ops"]) else "?"
+    names = (["init"] if case.get("init") is not None else []) + [o[0] for o in case["ops"]]
+    op = names[i] if i < len(names) else "?"
     return "%s:%s" % (op, what)
 
 
@@ -320,7 +481,8 @@ def classify(case, impl, model):
 
 def nontrivial(case, model):
     seen_edge = False
-    for o, st in zip(case["ops"], model["steps"]):
+    steps = model["steps"][1:] if case.get("init") is not None else model["steps"]
+    for o, st in zip(case["ops"], steps):
         if seen_edge and not st["raised"] and o[0] in ("sml", "rv", "cp"):
             return True
         if any(l[1] for l in st["layers"]):
@@ -330,7 +492,7 @@ def nontrivial(case, model):
 
 def key(case):
     import json
-    return json.dumps([case["cls"], case["L"], case["ops"]])
+    return json.dumps([case["cls"], case["L"], case["ops"], case.get("init"), case.get("var"), case.get("_lab"), case.get("warm_at")])
 
 
 def shrink(case):
@@ -348,3 +510,12 @@ def shrink(case):
                 yield dict(case, ops=ops[:i] + [[o[0], o[1], o[2][:j] + o[2][j + 1:]]] + ops[i + 1:])
     if case["L"] > 1:
         yield dict(case, L=case["L"] - 1)
+    if case.get("var") is not None:
+        yield {k: v for k, v in case.items() if k != "var"}
+    if case.get("init") is not None:
+        yield {k: v for k, v in case.items() if k != "init"}
+        for ly, es in enumerate(case["init"]):
+            for j in range(len(es)):
+                yield dict(case, init=[e if l != ly else es[:j] + es[j + 1:] for l, e in enumerate(case["init"])])
+    if case.get("_lab") is not None:
+        yield {k: v for k, v in case.items() if k != "_lab"}
